@@ -1,8 +1,8 @@
 #!/usr/bin/env bash
-# usage: tools/keep_seed.sh <worktree> <n> <ID> "<detected by: ...>"
+# usage: tools/keep_seed.sh <worktree> <n> <ID> "<detected by: ...>" [<number under /verif/seeded>]
 set -eu
 WT="$1"; N="$2"; ID="$3"; DET="$4"
-SRC="$WT/SEEDED/$N"; DST="/verif/seeded/$ID-$N"
+DN="${5:-$N}"; SRC="$WT/SEEDED/$N"; DST="/verif/seeded/$ID-$DN"
 grep -q "SUMMARY demo_clean_rc=0 demo_mutant_rc=101" "$SRC/verify.log" || { echo "not verified: $SRC"; exit 1; }
 mkdir -p "$DST"
 cp "$SRC/patch.diff" "$DST/patch.diff"
